@@ -25,6 +25,8 @@ type c18Input struct {
 	State   string `json:"state"`   // absent | empty | content | dir | noparent | same | symlink-dangling | symlink-file
 	// several init processes started together on the same (absent) target: exactly one may win
 	Parallel int `json:"parallel,omitempty"`
+	// MOCKERY_* variables exported in the shell init runs in: they configure a run, the file states the defaults
+	Env [][2]string `json:"env,omitempty"`
 	Content string `json:"content"` // for state == content
 	Target  string `json:"target"`  // "" = default .mockery.yml, else --config value (relative to the module)
 	Pkg     string `json:"pkg"`
@@ -58,6 +60,16 @@ func (c18) Generate(c *Ctx) []any {
 	}
 	for k := 0; k < c.Budget(3, 12); k++ {
 		out = append(out, c18Input{State: "absent", Target: pick(c.Rng, []string{"", "custom.yml"}), Pkg: "example.com/m/foo", Parallel: 4 + c.Rng.Intn(5)})
+	}
+	for k := 0; k < c.Budget(4, 16); k++ {
+		in := c18Input{State: "absent", Target: pick(c.Rng, []string{"", "custom.yml"}), Pkg: "example.com/m/foo", Follow: true}
+		all := [][2]string{{"MOCKERY_LOG_LEVEL", "debug"}, {"MOCKERY_FORCE_FILE_WRITE", "true"}, {"MOCKERY_FORMATTER", "noop"}, {"MOCKERY_ALL", "true"},
+			{"MOCKERY_FILENAME", "env_mocks.go"}, {"MOCKERY_TEMPLATE", "matryer"}, {"MOCKERY_RECURSIVE", "true"}, {"MOCKERY_PKGNAME", "envpkg"}}
+		in.Env = append(in.Env, all[k%len(all)])
+		if c.Rng.Intn(2) == 0 {
+			in.Env = append(in.Env, all[(k+3)%len(all)])
+		}
+		out = append(out, in)
 	}
 	for _, p := range c18Pkgs {
 		out = append(out, c18Input{State: "absent", Target: "", Pkg: p})
@@ -147,7 +159,7 @@ func (c18) Run(c *Ctx, raw json.RawMessage) Case {
 			wg.Add(1)
 			go func(k int) {
 				defer wg.Done()
-				results[k] = c.runMockery(dir, args, nil)
+				results[k] = c.runMockery(dir, args, envOf(in.Env))
 			}(k)
 		}
 		wg.Wait()
@@ -165,12 +177,15 @@ func (c18) Run(c *Ctx, raw json.RawMessage) Case {
 			}
 		}
 	} else {
-		res = c.runMockery(dir, args, nil)
+		res = c.runMockery(dir, args, envOf(in.Env))
 	}
 	after := treeHashes(dir)
 	tags := []string{"state-" + in.State}
 	if in.Parallel > 1 {
 		tags = append(tags, "parallel")
+	}
+	if len(in.Env) > 0 {
+		tags = append(tags, "env-set")
 	}
 	if res.Panicked {
 		return Case{Impl: map[string]any{"panic": true}, Oracle: fail("panic", "init panicked: %s", lastLines(res.Stderr, 5)), Tags: tags}
@@ -305,4 +320,12 @@ func (c18) Run(c *Ctx, raw json.RawMessage) Case {
 		tags = append(tags, "followup")
 	}
 	return Case{Impl: impl, Oracle: or, Nontrivial: true, Tags: tags}
+}
+
+func envOf(kv [][2]string) []string {
+	var out []string
+	for _, e := range kv {
+		out = append(out, e[0]+"="+e[1])
+	}
+	return out
 }
